@@ -608,6 +608,18 @@ MUTANTS = [
     M("feeder-no-slot-release", ["C04", "C01"], ["R-FEEDER"],
       (QU, """                    queue_sem.release()
                     onerror(e, obj)""", """                    onerror(e, obj)""")),
+    # discarded candidate of seed C05-r6: the release moved into the default hook, which _SafeQueue overrides
+    M("feeder-slot-release-in-default-hook", ["C04", "C01"], ["R-FEEDER"],
+      (QU, """                    queue_sem.release()
+                    onerror(e, obj)""", """                    onerror(e, obj)"""),
+      (QU, """        import traceback
+
+        traceback.print_exc()
+""", """        import traceback
+
+        traceback.print_exc()
+        self._sem.release()
+""")),
     M("feeder-pickle-under-lock", ["C04"], ["R-PAIR"],
       (QU, """                    obj_ = dumps(obj, reducers=reducers)
                     sending = True
